@@ -30,6 +30,8 @@ def cases(draw):
     fam = draw(st.sampled_from(["vm", "vm", "gf", "stars", "taylor", "yaml", "yaml"]))
     if fam == "vm":
         setup = draw(vs.setups())
+        if len(vs.calculator(setup)[1]) > 1 and draw(st.booleans()):
+            setup = dict(setup, slperm=True)   # sitelist passed in the caller's own order (reversed), not Crystal.sitelist order
         crys, sl, jn, calc = vs.calculator(setup)
         pool = [draw(vs.datasets(calc)) for _ in range(2)]
         hist = draw(st.lists(st.sampled_from(["eval0", "eval1", "reload", "reload", "clear"]), min_size=2, max_size=6))
@@ -107,7 +109,7 @@ def check_vm(case):
             else:
                 reload_before = True
         trace.append(step)
-    return {"nontrivial": reload_before and reload_after, "classes": cs.describe(crys) + vs.describe(base) + ["vm"] + (["reload_before_cache"] if reload_before else []) + (["reload_after_cache"] if reload_after else []),
+    return {"nontrivial": reload_before and reload_after, "classes": cs.describe(crys) + vs.describe(base) + ["vm"] + (["sitelist_in_caller_order"] if case["setup"].get("slperm") else []) + (["reload_before_cache"] if reload_before else []) + (["reload_after_cache"] if reload_after else []),
             "sample": {"family": "vm", "crystal": case["setup"]["recipe"]["name"], "Nthermo": case["setup"]["Nthermo"], "history": trace}}
 
 
